@@ -6,7 +6,7 @@
 
 using namespace vh;
 
-static long symm_ncases(const std::string& tier) { return tier == "thorough" ? 80000 : 480; }
+static long symm_ncases(const std::string& tier) { return tier == "thorough" ? 160000 : 480; }
 
 namespace {
 struct Cand { Pomerol::Operator op; std::vector<RefTerm> ref; std::string cls, desc; };
